@@ -442,6 +442,93 @@ class KernelView:
         return getattr(self._rep, name)
 
 
+
+class Recorder:
+    """A stand-in for Report that only records what a rule module produces (used to replay the rules of one property
+    under another property, see rules/delegation.py)."""
+
+    def __init__(self, tier: str, property_id: str):
+        self.tier, self.property_id = tier, property_id
+        self.rules: dict = {}
+        self.floors: dict = {}
+        self.items: list = []
+        self.extra: dict = {}
+        self.instances: list = []
+        self.findings: list = []
+        self.error: str | None = None
+
+    def rule(self, rid, text, floor=1):
+        self.rules[rid] = text
+
+    def instance(self, rule, file, qualname, construct, ok, explanation="", line=None, nontrivial=True, sample=None, obligation=False):
+        self.items.append({"rule": rule, "text": self.rules.get(rule, rule), "file": file, "qualname": qualname, "construct": norm(construct), "ok": bool(ok), "explanation": explanation if not ok else "", "line": line})
+        return bool(ok)
+
+    def count(self, rule):
+        return sum(1 for i in self.items if i["rule"] == rule)
+
+    def unknown(self, what):
+        pass
+
+    def assume(self, what):
+        pass
+
+    def note(self, what):
+        pass
+
+
+def tree_digest() -> str:
+    """digest of everything a rule module may read: the repository's sources and the rule / engine code"""
+    import hashlib
+
+    h = hashlib.sha1()
+    roots = [(REPO, ("phonopy", "c")), (VERIF, ("rules", "engine"))]
+    for base, subs in roots:
+        for sub in subs:
+            for p in sorted((base / sub).rglob("*")):
+                if p.is_file() and p.suffix in (".py", ".c", ".h", ".cpp") and "__pycache__" not in p.parts:
+                    h.update(str(p.relative_to(base)).encode())
+                    h.update(p.read_bytes())
+    for extra in (REPO / "CMakeLists.txt", VERIF / "known_findings.json", VERIF / "alpha_table.json", VERIF / "calpha_table.json"):
+        if extra.is_file():
+            h.update(extra.read_bytes())
+    return h.hexdigest()[:20]
+
+
+def module_items(modname: str, tier: str) -> dict:
+    """{'items': [...], 'error': str|None} of the rule module `modname` (e.g. 'c06') on the current tree; computed once
+    per tree digest and kept under out/cache/deleg."""
+    import importlib
+
+    dig = tree_digest()
+    cdir = OUT / "cache" / "deleg"
+    f = cdir / f"{modname}.{tier}.{dig}.json"
+    if f.is_file():
+        try:
+            return json.loads(f.read_text())
+        except Exception:
+            pass
+    mod = importlib.import_module(f"rules.{modname}")
+    rec = Recorder(tier, modname.upper())
+    err = None
+    try:
+        mod.run(rec)
+    except AnalysisError as e:
+        err = str(e)
+    out = {"items": rec.items, "error": err}
+    try:
+        cdir.mkdir(parents=True, exist_ok=True)
+        for old in cdir.glob(f"{modname}.{tier}.*.json"):
+            if old.stat().st_mtime < time.time() - 6 * 3600:
+                old.unlink(missing_ok=True)
+        tmp = f.with_suffix(f".tmp{os.getpid()}")
+        tmp.write_text(json.dumps(out))
+        os.replace(tmp, f)
+    except OSError:
+        pass
+    return out
+
+
 def load_known() -> dict:
     if KNOWN.is_file():
         return json.loads(KNOWN.read_text())
